@@ -161,6 +161,9 @@ def occurs_before_bind(ck, facts, R):
         branch_blocks = [i for i in cfg.call_blocks("Try::branch") if cfg.must_pass_blocks(i, cfg.call_blocks("try_fold_with"))]
         is_branch = lambda tr: tr.get("of", {}).get("kind") == "call" and tr["of"].get("block") in branch_blocks
         cont = cfg.variant_edges(is_branch, ["Continue"])
+        # ... or, when the result of the fold is matched directly, the Ok edge of that match
+        is_fold = lambda tr: tr.get("of", {}).get("kind") == "call" and callee_matches(tr["of"]["call"], "try_fold_with")
+        cont = cont + cfg.variant_edges(is_fold, ["Ok"])
         n = guard_sites(ck, R, b, cfg.call_blocks(BIND), cont, "unify_var_value", "fold succeeded (`?` Continue edge)")
         ck.floor(R, name + ".bind-sites", n, 1)
         # OccursCheck::new(self, var, universe_index): same `var` as the one bound; universe from universe_of_unbound_var(var)
